@@ -506,6 +506,11 @@ func newBuffer(br *Reader) (*buffer, error) {
 	}
 	n, err = io.ReadFull(br.r, b.data)
 	if err != nil {
+		if err == io.EOF {
+			// The block size has been read, so the
+			// stream ends inside a record.
+			err = io.ErrUnexpectedEOF
+		}
 		return nil, err
 	}
 	if n != size {
